@@ -622,3 +622,44 @@ def c20p(ctx):
                    'uncached fill image is sent with max-age and an ETag next to no-store')
     ok = all(g.guarded(n, cacheable, False) for n, x in nos)
     ctx.check(ok, 'WMSServer.map:no-store-for-uncacheable-result', 'no-store is set exactly under `not result.cacheable`', fn)
+
+
+@rule('C20.q', floor=2)
+def c20q(ctx):
+    """the "do not cache" mark of a fill image survives: the image an `on_error` rule answers with carries cacheable=False and is
+    returned by WMSSource.get_map as the error handler made it.  The post-processing of a *fetched* map (transparent colour, opacity)
+    builds a new image object, which is cacheable by default -- it is applied to the result of self._get_map(query) only, never to
+    the answer of the error handler (that fill image would be stored and sent with public cache headers)"""
+    fn = ctx.fn('mapproxy/source/wms.py:WMSSource.get_map')
+    g = fn.cfg
+    mt = g.find(lambda x: is_call(x, 'make_transparent') and x.args)
+    hd = g.find(lambda x: is_call(x, 'self.error_handler.handle'))
+    if not mt or not hd:
+        raise Undecided('WMSSource.get_map: make_transparent / error_handler.handle not found')
+    ok = all(fn.ctext(x.args[0], at=n) == 'self._get_map(query)' for n, x in mt)
+    ctx.check(ok, 'WMSSource.get_map:post-processing-of-fetched-maps-only', 'make_transparent is applied to the result of self._get_map(query)', fn,
+              fail='WMSSource.get_map post-processes an image that can be the fill image of the error handler: the new image object is '
+                   'cacheable again and the fill image is stored and served with public cache headers')
+    # the handler's answer is returned as it is
+    rets = [n for n in g.find_stmts(lambda s: isinstance(s, ast.Return) and s.value is not None)]
+    from_handler = [n for n in rets if is_call(fn.canon.expr(g.stmt[n].value), 'self.error_handler.handle') or
+                    any(g.dominates(h, n) and h != n for h, _ in hd)]
+    ctx.check(bool(from_handler), 'WMSSource.get_map:handler-answer-returned', 'the answer of the error handler is returned from its own branch', fn)
+
+
+@rule('C20.r', floor=2)
+def c20r(ctx):
+    """the same tile gets the same validators, however it came to be loaded: every load of cached tiles in
+    TileManager._load_tile_coords -- the batch load and the load of tiles another request stored in the meantime -- hands the
+    caller's `with_metadata` on to the cache (a tile loaded without it is served with the constant ETag of "no time stamp, no size"
+    and no Last-Modified, and that constant ETag is answered 304 after the tile was rewritten)"""
+    fn = ctx.fn('mapproxy/cache/tile.py:TileManager._load_tile_coords')
+    loads = [x for x in fn.walk() if is_call(x, 'self.cache.load_tiles')]
+    if len(loads) < 2:
+        raise Undecided('_load_tile_coords: %d cache.load_tiles calls found' % len(loads))
+    for k, x in enumerate(sorted(loads, key=lambda y: y.lineno)):
+        a = keyword(x, 'with_metadata', 1)
+        ok = a is not None and unparse(fn.canon.expr(a)) == 'with_metadata'
+        ctx.check(ok, 'TileManager._load_tile_coords:load_tiles#%d:metadata-flag-handed-on' % (k + 1), 'cache.load_tiles(.., with_metadata, ..)', fn, x,
+                  fail='a load of cached tiles in _load_tile_coords does not pass with_metadata on (%s): those tiles are served without '
+                       'their validators' % (unparse(a) if a is not None else 'missing'))
